@@ -160,9 +160,9 @@ var (
 	mOOB      = mode{Name: "trap-oob", Cls: "fail", Sig: "out of bounds memory access"}
 	mStack    = mode{Name: "trap-stack-exhaustion", Cls: "fail", Sig: "stack overflow"}
 	mUnreach  = mode{Name: "trap-unreachable", Cls: "fail", Sig: "unreachable"}
-	mCINull   = mode{Name: "trap-call_indirect-null", Cls: "fail", Sig: ""}
-	mCISig    = mode{Name: "trap-call_indirect-signature", Cls: "fail", Sig: ""}
-	mCIRange  = mode{Name: "trap-call_indirect-range", Cls: "fail", Sig: ""}
+	mCINull   = mode{Name: "trap-call_indirect-null", Cls: "fail", Sig: "invalid table access"}
+	mCISig    = mode{Name: "trap-call_indirect-signature", Cls: "fail", Sig: "indirect call type mismatch"}
+	mCIRange  = mode{Name: "trap-call_indirect-range", Cls: "fail", Sig: "invalid table access"}
 	mSyntax   = mode{Name: "compile-syntax", Cls: "fail"}
 	mType     = mode{Name: "compile-type", Cls: "fail"}
 	mMissing  = mode{Name: "missing-file", Cls: "fail"}
